@@ -172,7 +172,7 @@ def check(col: Collector):
     from .common import shared, construct_tag
     from . import c04
     with col.rule():
-        shared(col, "C13.R6", [c04._calls, c04._leaves],
+        shared(col, "C13.R6", [c04._calls, c04._leaves, c04._zero_division],
                why="the generated text looks every operand (and the called function) up afresh on each call; the manager's tasks must "
                    "evaluate them afresh too (nothing resolved once and remembered)")
     with col.rule():
